@@ -305,7 +305,7 @@ pub fn gen_packets(r: &mut Rng) -> String {
         let pkt = match r.below(8) {
             0 | 1 => hex(&crate::c01::gen_grammar(r)),
             2 => hex(&crate::c01::gen_valid(r)),
-            3 => hex(&crate::c01::gen_pointer_shapes(r)),
+            3 => hex(&if r.chance(1, 2) { crate::c01::gen_pointer_shapes(r) } else { crate::c01::gen_tail(r) }),
             4 => {
                 // wire labels that merge / grow when the unescaped name is encoded again:
                 // a label ending in a backslash, labels with dots, 63-byte labels
